@@ -96,10 +96,16 @@ impl<T> Drop for Gated<T> {
 /// produced on demand. Does nothing otherwise.
 pub(crate) fn before_sync_publish(version: i32) {
     let mut g = GATE.lock().unwrap_or_else(|e| e.into_inner());
-    if !g.get_or_insert_with(Gate::default).early.contains(&version) {
-        return;
+    {
+        let gate = g.get_or_insert_with(Gate::default);
+        // Only analyses that have been started can finish first; if none has been started for this
+        // version yet, its analysis stays gated and under the control of the release order.
+        let started = gate.spawned_by_version.get(&version).copied().unwrap_or(0) > 0;
+        if !gate.early.contains(&version) || !started {
+            return;
+        }
+        gate.released.insert(version);
     }
-    g.get_or_insert_with(Gate::default).released.insert(version);
     GATE_CV.notify_all();
     let deadline = std::time::Instant::now() + std::time::Duration::from_secs(60);
     loop {
